@@ -673,7 +673,7 @@ def rule_R7(toks: List[Tok], k: int, rep: Report, fn: str) -> List[Tok]:
         mt = re.fullmatch(r"\(([\w,]+)\) ?in ?&(\w+)", txt)
         mw = re.fullmatch(r"(\w+) in (\w+)\.windows\((\w+)\)", txt)
         ms = re.fullmatch(r"(\w+) in (\w+)\.into_iter\(\)\.skip\((\w+)\)", txt)
-        mc = re.fullmatch(r"&(\w+) in ([\w.]+\(\))", txt)
+        mc = None if m else re.fullmatch(r"&(\w+) in ([\w.]+\(\))", txt)      # (`v.iter()` is the plain R7 case above)
         if mt:
             # for (a, _, c) in &V: a tuple pattern against `&T` binds references to the fields (default binding modes), as does `let (..) = &V[i]`
             x, v = "(" + mt.group(1).replace(",", ", ") + ")", mt.group(2)
